@@ -174,8 +174,10 @@ def ex_interval(c):
         ol, op = ia.oversample_linspace(c["num"]), ia.oversample_piecewise(c["num"])
         ovl, ovp, ovn = vec(ol.array), vec(op.array), int(ol.n) if ol.n == op.n else -1
         ib = IntervalArray(a.copy(), n)
+        ib.to_2d_array()                               # the layout is requested before and after the writes
         for i, j, v in c["sets"]:
             ib[i, j] = fl(v)
+        t2s = mat(ib.to_2d_array())
         # beyond the listed property: flat integer index, iteration, repr, too many indices, extension through the view
         L = len(a)
         fk = sorted({0, L - 1, -1, -L, L // 2})
@@ -199,7 +201,7 @@ def ex_interval(c):
         icn.extend_constant(ext_dir)
         lst = IntervalArray(a.tolist(), n)               # list input is documented
         return dict(gets=gets, to2d=t2, to2d_closed=t2c, to2d_closed_all=t2ca, nr_full=nr, len=ln,
-                    ov_lin=ovl, ov_pw=ovp, ov_n=ovn, after_sets=vec(ib.array),
+                    ov_lin=ovl, ov_pw=ovp, ov_n=ovn, after_sets=vec(ib.array), to2d_after_sets=t2s,
                     fgets=fgets, fsets=fsets, after_fsets=vec(ic.array), iter=it, repr_vals=rvals, repr_n=rn, idx3=idx3, set3=set3,
                     ext_dir=ext_dir, ext_lin=ext_lin, ext_const=vec(icn.array), ext_n=int(il.n) if il.n == icn.n else -1,
                     from_list=vec(np.asarray(lst.array, dtype=float)), from_list_kind=type(lst.array).__name__)
@@ -207,7 +209,7 @@ def ex_interval(c):
     oc, o = guarded(run)
     e = {k: v for k, v in c.items() if k != "get_ij"}
     if oc != "ok":
-        o = dict(gets=[], to2d=[], to2d_closed=[], to2d_closed_all=[], nr_full=-1, len=-1, ov_lin=[], ov_pw=[], ov_n=-1, after_sets=[],
+        o = dict(gets=[], to2d=[], to2d_closed=[], to2d_closed_all=[], nr_full=-1, len=-1, ov_lin=[], ov_pw=[], ov_n=-1, after_sets=[], to2d_after_sets=[],
                  fgets=[], fsets=[], after_fsets=[], iter=[], repr_vals=[], repr_n=-1, idx3="", set3="", ext_dir="both", ext_lin=[],
                  ext_const=[], ext_n=-1, from_list=[], from_list_kind="")
     e.update(o)
@@ -720,6 +722,8 @@ def match_call(c, x, y):
         kw["fixed_points_in_x"] = [fl(r) + off for r in c["given"]]
     elif c["mode"] == "indices":
         kw["fixed_points_indices_in_x"] = list(c["given"])
+        if c.get("decoy"):            # positions handed over as well: documented - they are set according to the indices
+            kw["fixed_points_in_x"] = [fl(r) + off for r in c["decoy"]]
     L = c["yoff"][0] * 2.0 ** c["yoff"][1] if c.get("yoff") else 0.0      # exact translation of the values, reference included
     return match_mod.integral_matching_reference_stretch(x, y, xarr(c["xref"], "array", off), arr(c["yref"]) + L, **kw)
 
